@@ -53,6 +53,8 @@ def worker_init(tier):
     d = tempfile.mkdtemp(prefix="vt-c19-", dir="/dev/shm" if os.path.isdir("/dev/shm") else None)
     files, truth = clidata.write_all(d, seed=19)
     _DATA.update(dir=d, files=files, truth=truth)
+    root = tt.subject_root()
+    _DATA["flu"] = {"nuc": os.path.join(root, "data", "fluA.fa"), "tree": os.path.join(root, "data", "fluA.tree")}  # 69 dated taxa shipped with the repository
     import atexit
 
     atexit.register(shutil.rmtree, d, True)
@@ -167,11 +169,21 @@ def cases(tier, seed):
         out.append(c)
     for i, c in enumerate(out):
         c["run"] = tier == "thorough" or i % 8 == 0
+    # the data set shipped with the repository (69 dated influenza sequences, a tree with tied internal node heights)
+    for i in range(16 if tier == "quick" else 240):
+        clock = str(rng.choice(["strict", "strict", "ucln"]))
+        c = {"data": "flu", "sub": ["advi", "map", "mcmc", "hmc"][i % 4], "model": str(rng.choice(["JC69", "HKY", "GTR"])), "C": int(rng.choice([1, 4])), "I": False, "clock": clock,
+             "heights": str(rng.choice(["ratio", "shift"])), "prior": str(rng.choice(["constant", "exponential", "skyride", "skygrid", "skyglide", "piecewise-constant", "bdsk"])), "extras": {}, "run": i % 4 == 0}
+        if rng.random() < 0.3:
+            c["extras"]["keep"] = True
+        out.append(c)
     return out
 
 
 def argv_for(case):
     f = _DATA["files"]
+    if case.get("data") == "flu":
+        f = dict(f, **_DATA["flu"])
     m = case["model"]
     aln = f["codon"] if m == "MG94" else (f["aa"] if m in ("LG", "WAG") else f["nuc"])
     e = case["extras"]
@@ -211,9 +223,15 @@ def run_cli(argv):
     """-> ('json', list) | ('rejected', reason)"""
     import torchtree.cli.cli as cli
 
+    import torch
+
     out, err = io.StringIO(), io.StringIO()
     old = sys.argv
     sys.argv = ["torchtree-cli"] + argv
+    # torchtree-cli is its own process and never sets the default dtype (float32), torchtree sets float64 before loading:
+    # initial values the CLI derives from torch.finfo / float32 arithmetic must be the ones a user gets
+    dtype = torch.get_default_dtype()
+    torch.set_default_dtype(torch.float32)
     try:
         with contextlib.redirect_stdout(out), contextlib.redirect_stderr(err):
             cli.main()
@@ -228,6 +246,7 @@ def run_cli(argv):
         return "rejected", "%s@%s" % (type(e).__name__, (os.path.basename(where[-1].filename)[:-3] + "." + where[-1].name) if where else "?")
     finally:
         sys.argv = old
+        torch.set_default_dtype(dtype)
     text = out.getvalue()
     try:
         return "json", json.loads(text)
@@ -404,10 +423,6 @@ def check_loaded(case, spec, dic, V, C, detail, feat, torch):
         return
     subst_bad = [b for b in bad if b.startswith("substmodel") or b.startswith("srd06")]
     other_bad = [b for b in bad if b not in subst_bad]
-    if other_bad and other_bad[0].startswith("bdsk") and (case["extras"].get("keep") or case["extras"].get("heights_init") == "tree"):
-        # mechanism: with node heights taken from the (long) input tree the skyline terms exp(A*dt) overflow in the backward pass
-        V.append(tt.viol("C19:gradient-not-finite:bdsk-with-node-heights-from-the-input-tree", "gradient of the target w.r.t. %s is not finite at the initial point (bdsk with --keep / --heights_init tree) [%s]" % (other_bad[0], " ".join(detail["argv"])), **detail))
-        other_bad = []
     if other_bad:
         V.append(tt.viol("C19:gradient-not-finite:%s:%s" % (other_bad[0], prior_feature(case)), "gradient of the target w.r.t. %s is not finite at the initial point" % other_bad[0], **detail))
         return
@@ -487,7 +502,24 @@ def nonfinite_feature(case, dic, torch):
             rec(dic[root])
             break
     e = case["extras"]
-    if "cutoff" in e and e["cutoff"] < _DATA["truth"]["span"] and case["heights"] == "ratio":
+    if any(b.startswith("GMRF") for b in bad) and "tree" in dic and not e.get("disable_time_aware"):
+        try:
+            h = dic["tree"].node_heights.detach().reshape(-1)
+            n = (h.numel() + 1) // 2
+            ih = h[n:].sort()[0]
+            if bool(((ih[1:] - ih[:-1]) == 0).any()):
+                # mechanism: the time-aware GMRF weights its increments by the time between coalescent events; two internal
+                # nodes at the same height give a zero duration and 0 * inf in the quadratic form
+                return "time-aware-gmrf:tied-internal-node-heights-at-the-initial-point"
+        except Exception:
+            pass
+    span = _DATA["truth"]["span"]
+    try:
+        span = float(dic["tree"].sampling_times.max())
+    except Exception:
+        pass
+    cutoff = e.get("cutoff", 12.0 if case["prior"] in ("skygrid", "skyglide", "piecewise-constant", "piecewise-linear", "piecewise-exponential") else None)
+    if cutoff is not None and cutoff < span and case["heights"] == "ratio":
         # mechanism: the root height is initialised at max(cutoff, span) = span, i.e. exactly on its lower bound
         return "root-height-initialised-on-its-lower-bound:cutoff-below-the-span-of-the-sampling-dates"
     return "%s:%s" % ("+".join(sorted(set(bad))[:3]) or "?", prior_feature(case))
@@ -495,13 +527,17 @@ def nonfinite_feature(case, dic, torch):
 
 def initial_values(case, dic, V, C, detail, torch):
     e = case["extras"]
+    if case.get("data") == "flu":
+        return  # the requested values are checked on the synthetic data, whose heights / dates the harness knows by construction
     T = _DATA["truth"]
 
-    def near(a, b, tol=1e-9):
+    # tolerances: torchtree-cli works in single precision (it never sets the default dtype) and writes the unconstrained values
+    # it derived there; "equal to those requested" is therefore judged to single precision through the constraining transform
+    def near(a, b, tol=2e-6):
         a, b = np.asarray(a, dtype=float).reshape(-1), np.asarray(b, dtype=float).reshape(-1)
         return a.shape == b.shape and bool(np.all(np.abs(a - b) <= tol * np.maximum(1.0, np.abs(b))))
 
-    def want(pid, expected, what, tol=1e-9):
+    def want(pid, expected, what, tol=2e-6):
         if pid not in dic:
             return
         C["initial_value_checks"] += 1
@@ -527,7 +563,7 @@ def initial_values(case, dic, V, C, detail, torch):
                 C["initial_value_checks"] += 1
                 exp = expected_branch_lengths(dic)
                 got = tree.branch_lengths().detach().numpy()
-                if exp is not None and not near(got, exp, 1e-6):
+                if exp is not None and not near(got, exp, 1e-5):
                     V.append(tt.viol("C19:initial-value:branch-lengths-from-tree:%s" % ("keep" if e.get("keep") else "brlens_init=tree-without-keep"), "--keep / --brlens_init tree requested, branch lengths %s differ from the input tree %s" % (got[:4], exp[:4]), **detail))
     else:
         tree = dic.get("tree")
@@ -537,13 +573,13 @@ def initial_values(case, dic, V, C, detail, torch):
         if "root_height_init" in e and not (e.get("keep") or e.get("heights_init") == "tree") and e.get("dates") != "0":
             C["initial_value_checks"] += 1
             root = float(tree.node_heights[-1])
-            if abs(root - e["root_height_init"]) > 1e-6:
+            if abs(root - e["root_height_init"]) > 1e-5:
                 V.append(tt.viol("C19:initial-value:--root_height_init:" + case["heights"], "--root_height_init %s requested, the root starts at height %.8g" % (e["root_height_init"], root), **detail))
         if (e.get("keep") or e.get("heights_init") == "tree") and e.get("dates") != "0" and "root_height_init" not in e:
             C["initial_value_checks"] += 1
             exp = expected_heights(dic)
             got = tree.node_heights.detach().numpy()[n:]
-            if not near(got, exp, 1e-6):
+            if not near(got, exp, 1e-5):
                 V.append(tt.viol("C19:initial-value:heights-from-tree:" + case["heights"], "--keep / --heights_init tree requested, node heights %s differ from the input tree %s" % (got, exp), **detail))
 
 
@@ -570,7 +606,12 @@ def run_emitted(case, V, C, detail):
         C["algorithms_run"] = sorted(set(C["algorithms_run"]) | {"%s:%s" % (case["sub"], r["algorithm"])})
         return
     exc, msg = r["exception"], r["message"].lower()
-    if exc in WIRING or (exc == "RuntimeError" and any(w in msg for w in SHAPE_WORDS)):
+    if r.get("nonfinite_state"):
+        # a parameter of the model is NaN / inf when the run dies (a diverged trajectory, an optimiser step out of the support):
+        # whatever is raised afterwards (typically an index error from a search over NaN times) is numerical trouble during the run
+        C["runs_numerical_failure_not_judged"] = C.get("runs_numerical_failure_not_judged", 0) + 1
+        C["numerical_failures"] = ["%s %s@%s (non-finite parameters)" % (case["sub"], exc, r["where"])]
+    elif exc in WIRING or (exc == "RuntimeError" and any(w in msg for w in SHAPE_WORDS)):
         V.append(tt.viol("C19:run-raises:%s:%s:%s" % (case["sub"], exc, r["where"]), "the emitted configuration loads and has a finite target but running it for a few iterations raises %s in %s: %s [%s]" % (
             exc, r["where"], r["message"][:120], " ".join(detail["argv"])), **detail))
     else:
